@@ -4,6 +4,7 @@ import ast
 import datetime
 
 from sa import model
+from sa import norm
 from sa import shapes
 from sa import universe as unimod
 from sa.model import AnalysisError
@@ -434,29 +435,54 @@ def check_int_division(repo, rep):
     m = repo.module('yaql.standard_library.math')
     div = m.func('division')
     ps = div.params()
-    ok_floor = False
-    ok_true = False
-    for st in model.walk_shallow(div.node):
-        if isinstance(st, ast.If):
-            t = st.test
-            ints = [c for c in ast.walk(t) if isinstance(c, ast.Call) and
-                    isinstance(c.func, ast.Name) and
-                    c.func.id == 'isinstance' and len(c.args) == 2 and
-                    model.norm(c.args[1]) == 'int']
-            both = {model.norm(c.args[0]) for c in ints} == set(ps) and \
-                isinstance(t, ast.BoolOp) and isinstance(t.op, ast.And)
-            for r in [x for s in st.body for x in model.walk_shallow(s)
-                      if isinstance(x, ast.Return)]:
-                v = r.value
-                if both and isinstance(v, ast.BinOp) and isinstance(
-                        v.op, ast.FloorDiv) and [model.norm(v.left),
-                                                 model.norm(v.right)] == ps:
-                    ok_floor = True
-        if isinstance(st, ast.Return) and isinstance(st.value, ast.BinOp) \
-                and isinstance(st.value.op, ast.Div) and \
-                [model.norm(st.value.left), model.norm(st.value.right)] \
-                == ps and model.enclosing(st, ast.If) is None:
-            ok_true = True
+    def is_int_test(e, who):
+        return isinstance(e, ast.Call) and isinstance(
+            e.func, ast.Name) and e.func.id == 'isinstance' and \
+            len(e.args) == 2 and model.norm(e.args[0]) == who and \
+            model.norm(e.args[1]) in ('int', '(int,)')
+
+    def oracle(left_int, right_int):
+        def o(e):
+            if is_int_test(e, ps[0]):
+                return left_int
+            if is_int_test(e, ps[1]):
+                return right_int
+            return None
+        return o
+    floors = [x for x in ast.walk(div.node) if isinstance(x, ast.BinOp) and
+              isinstance(x.op, ast.FloorDiv) and
+              [model.norm(x.left), model.norm(x.right)] == ps]
+    trues = [x for x in ast.walk(div.node) if isinstance(x, ast.BinOp) and
+             isinstance(x.op, ast.Div) and
+             [model.norm(x.left), model.norm(x.right)] == ps]
+    # // exactly when both are int; / exactly when not
+    ok_floor = bool(floors) and all(
+        norm.reachable_under(x, div.node, oracle(True, True)) and
+        not norm.reachable_under(x, div.node, oracle(False, True)) and
+        not norm.reachable_under(x, div.node, oracle(True, False))
+        for x in floors) and not any(
+        norm.reachable_under(x, div.node, oracle(True, True))
+        for x in trues)
+    ok_true = bool(trues) and all(
+        norm.reachable_under(x, div.node, oracle(False, True)) and
+        norm.reachable_under(x, div.node, oracle(True, False)) and
+        norm.reachable_under(x, div.node, oracle(False, False))
+        for x in trues)
+    # every result is one of the two
+    rets = [r for r in model.walk_shallow(div.node)
+            if isinstance(r, ast.Return)]
+    for r in rets:
+        v = norm.subst_locals(div.node, r.value) if r.value is not None \
+            else None
+
+        def leaf_ok(e):
+            if isinstance(e, ast.IfExp):
+                return leaf_ok(e.body) and leaf_ok(e.orelse)
+            return isinstance(e, ast.BinOp) and isinstance(
+                e.op, (ast.FloorDiv, ast.Div)) and [
+                model.norm(e.left), model.norm(e.right)] == ps
+        if v is None or not leaf_ok(v):
+            ok_true = False
     rep.ob('R15e', div.key + '/int-floor', ok_floor,
            'integer / integer must be computed with // on the two operands '
            '(exact at any magnitude and paired with mod so that a = (a / b) '
